@@ -80,11 +80,13 @@ package streams
 //@   ensures [C16.multi.bytes] n > 0 ==> (old(mr.cur) <= last && last < mr.nsrc && mr.srcs[last].pos == old(mr.srcs[last].pos) + n
 //@        && (forall k :: 0 <= k && k < n ==> p[k] == mr.srcs[last].data[old(mr.srcs[last].pos) + k]))
 //@   ensures [C16.multi.noskip] n > 0 ==> (forall j :: old(mr.cur) <= j && j < last ==> (mr.srcs[j].pos == mr.srcs[j].total || mr.ext[j] == 1))
+//@   ensures [C16.multi.nolost] forall j :: (0 <= j && j < mr.nsrc && !(n > 0 && j == last)) ==> mr.srcs[j].pos == old(mr.srcs[j].pos)
 //@   ensures [C16.multi.eof] err == io.EOF ==> mr.cur == mr.nsrc
 //@   ensures [C16.multi.later] forall j :: mr.cur < j && j < mr.nsrc ==> mr.srcs[j].pos == old(mr.srcs[j].pos)
 //@   loop 0 invariant inv(mr) && mr.nsrc == old(mr.nsrc) && mr.srcs == old(mr.srcs) && old(mr.cur) <= mr.cur
 //@   loop 0 invariant forall j :: mr.cur <= j && j < mr.nsrc ==> mr.srcs[j].pos == old(mr.srcs[j].pos)
 //@   loop 0 invariant forall j :: old(mr.cur) <= j && j < mr.cur ==> (mr.srcs[j].pos == mr.srcs[j].total || mr.ext[j] == 1)
+//@   loop 0 invariant forall j :: 0 <= j && j < mr.nsrc ==> mr.srcs[j].pos == old(mr.srcs[j].pos)
 //@   at call Read ghost last = mr.cur
 //@   at store readers#0 ghost mr.ext = update(mr.ext, mr.cur, 1)
 //@   at store readers#0 ghost mr.cur = mr.cur + 1
@@ -173,3 +175,21 @@ package streams
 //@   ensures t.r == nil && t.w == nil
 //@   ensures [C16.tee.close.r] (implements(old(t.r), "io.Closer") && old(t.w) != old(t.r)) ==> old(t.r).closes == old(old(t.r).closes) + 1
 //@   ensures [C16.tee.close.w] (implements(old(t.w), "io.Closer") && old(t.w) != old(t.r)) ==> old(t.w).closes == old(old(t.w).closes) + 1
+
+// ---- UppercaseTransformer (C07 safety sweep: any rune, any byte stream) ----
+
+//@ func RuneToUppercase
+//@   tags C07
+//@   modifies nothing
+//@   ensures [C07.upper.ascii] (0 <= c && c < 128) ==> (len(result) == 1 && result[0] == (('a' <= c && c <= 'z') ? c - 32 : c))
+
+// The closure reads one rune from the bufio.Reader that UppercaseTransformer created (captured variable br).
+//@ func UppercaseTransformer$1
+//@   tags C07
+//@   requires br != nil
+//@   ensures [C07.upper.err] result1 != nil ==> result == nil
+
+//@ func UppercaseTransformer
+//@   tags C07
+//@   modifies nothing
+//@   ensures result != nil
